@@ -276,6 +276,17 @@ class Shim(object):
         if self.delay_us and cls == 'M':
             time.sleep(self.delay_us / 1e6)
         rec = {'k': k, 'op': name, 'c': cls, 'p': paths}
+        # operations that FOLLOW a final symlink act on its target: log it
+        if cls == 'M' and name in ('chmod', 'chown', 'utime', 'truncate',
+                                   'setxattr', 'open', 'bopen') and paths \
+                and paths[0] and kw.get('follow_symlinks', True) and \
+                not (name == 'open' and ((a[1] if len(a) > 1 else
+                                          kw.get('flags', 0)) & os.O_NOFOLLOW)):
+            try:
+                if posixpath.islink(paths[0]):
+                    rec['follows'] = posixpath.realpath(paths[0])
+            except OSError:
+                pass
         if kind == 'open':
             rec['fl'] = a[1] if len(a) > 1 else kw.get('flags', 0)
         elif kind == 'bopen':
